@@ -3,7 +3,7 @@ from typing import Set, Union, Optional
 
 # Local imports
 from .datatype import datatype, AllowArbConfig
-from .connect import connectable
+from .connect import connectable, OrderedSet
 from .sliceable import sliceable
 from .concat import concatable
 from .instance import _Instance
@@ -26,7 +26,7 @@ class PortRef:
 
     def __post_init__(self):
         # Inner management data
-        self._connected_ports: Set[PortRef] = set()
+        self._connected_ports: Set[PortRef] = OrderedSet()
         self.resolved: Union[None, "Signal", "BundleInstance"] = None
         self._slices: Set["Slice"] = set()
         self._concats: Set["Concat"] = set()
